@@ -373,6 +373,26 @@ def exchange(ctx, d, o, svc, xctx, req, oinfo, caller_headers=None):
             ctx.violation(f"HTTP 404 response: {type(ex).__name__}: {ex} instead of the transport's status error", oinfo)
         caller_headers.clear()
         caller_headers["x-user"] = "1"
+    # the caller OVERRIDES properties of the service description (Client.from_service(svc, **kwargs)): what the caller
+    # says wins, also when it says "no SOAPAction" or nothing at all
+    if supported:
+        for over, want_url, want_action in (({"location": "http://other.example/alt"}, "http://other.example/alt", o["action"]),
+                                            ({"soap_action": ""}, d["location"], ""), ({"soap_action": None}, d["location"], ""),
+                                            ({"soap_action": "urn:overridden", "location": "http://other.example/alt"}, "http://other.example/alt", "urn:overridden")):
+            tr = Recording(response_xml(d, o))
+            client = Client.from_service(svc, **over)
+            client.transport = tr
+            client.parser = XmlParser(context=xctx)
+            client.serializer = XmlSerializer(context=xctx)
+            ctx.case(("wsdl-override", oinfo["wsdl"], o["name"], repr(over)))
+            try:
+                client.send(req)
+            except Exception as ex:  # noqa: BLE001
+                ctx.violation(f"Client.from_service(..., {over}).send raised {type(ex).__name__}: {ex}", oinfo)
+                continue
+            call = tr.calls[0] if tr.calls else {"url": None, "headers": {}}
+            if call["url"] != want_url or (call["headers"].get("SOAPAction") or "") != want_action:
+                ctx.violation(f"Client.from_service(..., {over}): posted to {call['url']} with headers {call['headers']}; the caller asked for {want_url} and SOAPAction {want_action!r}", oinfo)
     # a wrong input object is rejected before anything is sent
     tr = Recording(b"")
     client = Client.from_service(svc)
